@@ -8,7 +8,7 @@ import glob, json, os, random, re
 import vlib
 from checks import scope_common
 
-LIB = "pub fn a(x) { x }\npub fn c() { 1 }\nfn p() { 2 }\npub type A { A(a: Int) C }\npub const k = 1\npub type T { W }\n"
+LIB = "pub fn a(x) { x }\npub fn c() { 1 }\nfn p() { 2 }\npub type A { A(a: Int) C }\npub const k = 1\npub type T { W }\ntype P { Q }\n"
 
 
 def text_of(case):
